@@ -75,8 +75,8 @@ PLAN = {
     ),
     "C09": dict(
         title="Dropout never leaks into prediction or validation",
-        level="model_checking",
-        verus=[],
+        level="proof",
+        verus=["C09_flags.rs"],
         kani=True,
         undecided_clauses=["layer sequences longer than 4 (the flag loops are checked on concrete sequences of 2-4 layers over all five layer kinds)",
                            "that predict()/validate() perform no other write to the flags is read off the code, not proved"],
@@ -213,10 +213,12 @@ MANIFEST_TEXT = {
              "covered for singleton/small shapes only; soft-max bounded n<=3; shift invariance under rounding undecided.",
     ),
     "C09": dict(
-        category="model_checking",
-        technique="Kani bounded model checking of the verbatim flag-handling regions of validate()/learn() and of each layer's dropout guard",
+        category="proof",
+        technique="Verus contracts on the per-layer bodies of every flag-setting loop (all layer kinds) + Kani on the verbatim flag regions over layer sequences and on each dropout guard",
         design_ref="DESIGN.md §5 C09",
-        text="Bounded, exhaustive within the bound: the four flag-handling regions of Network::validate and Network::learn are emitted "
+        text="Verus proves, for a layer of ANY kind, that the body applied to each layer by Feedback::training, by learn's entry and exit loops and by "
+             "validate's prologue / epilogue sets the dropout flag as the property needs (off while validating, argument-following inside a block, "
+             "on at entry, off after learn). Bounded, exhaustive within the bound: the four flag-handling regions of Network::validate and Network::learn are emitted "
              "verbatim as methods and run on concrete layer sequences (2-4 layers over dense / convolution / deconvolution / max-pool / "
              "feedback) from both start states: after the validate prologue every training flag is off, the epilogue restores the state, "
              "learn turns every flag on at entry and off at exit; the dropout guard region of every layer kind never reaches Tensor::dropout "
